@@ -76,8 +76,8 @@ func RunC06A(rep *report.Report, tier string, dl time.Time) {
 	if tier == "thorough" {
 		depth = 6
 	}
-	entries := []string{"ADD nh1", "ADD v4->1", "ADD nhg1{1}", "REPLACE v4->2", "DELETE v4", "DELETE nhg1", "ADD nh2 @\"\"", "ADD nh2 @NOPE"}
-	batches := [][]string{{"ADD v4->1", "ADD nhg1{1}", "ADD nh1"}, {"ADD nh2 @\"\"", "ADD nh1"}, {"ADD nhg2{2}", "ADD nh2"}}
+	entries := []string{"ADD nh1", "ADD v4->1", "ADD nhg1{1}", "REPLACE v4->2", "DELETE v4", "DELETE nhg1", "ADD nh2 @\"\"", "ADD nh2 @NOPE", "ADD v4@V->1@D"}
+	batches := [][]string{{"ADD v4->1", "ADD nhg1{1}", "ADD nh1"}, {"ADD nh2 @\"\"", "ADD nh1"}, {"ADD nhg2{2}", "ADD nh2"}, {"ADD v6@V->1@D", "ADD nh1", "ADD nhg1{1}"}}
 	ids := []ID{{0, 1}, {0, 2}}
 	ls := MakeLetters(n, ids, []stamp{stOwn}, nil, entries, batches)
 	rep.Set("alphabet", Names(ls))
